@@ -19,6 +19,7 @@ CONSTANTS
   Dtypes = {"f", "c"}
   WildDtypes = {"f"}
   Ops = {}
+  OpForms = {"csrwild", "coowild", "csr", "coo", "empty", "diag", "eye"}
   MaxSteps = 0
   MaxE = 2
   StrictOrder = TRUE
